@@ -71,6 +71,8 @@ class E:
     def _bin(s, o, op, rev=False):
         if isinstance(o, _np.ndarray) and o.shape != ():
             return NotImplemented
+        if getattr(o, '_defers_scalars', False):        # e.g. a field term of tracer/opshim: its own reflected operator handles scalar (op) field
+            return NotImplemented
         if isinstance(o, (CE, complex)):
             return NotImplemented if isinstance(o, CE) else getattr(CE.lift(s), {'+': '__add__', '-': '__sub__', '*': '__mul__', '/': '__truediv__'}[op] if not rev else {'+': '__radd__', '-': '__rsub__', '*': '__rmul__', '/': '__rtruediv__'}[op])(o)
         o = E.lift(o)
@@ -291,6 +293,7 @@ class CE:
     def __rsub__(s, o): o = CE.lift(o); return CE(o.re - s.re, o.im - s.im)
     def __mul__(s, o):
         if isinstance(o, _np.ndarray) and o.shape != (): return NotImplemented
+        if getattr(o, '_defers_scalars', False): return NotImplemented
         o = CE.lift(o); return CE(s.re * o.re - s.im * o.im, s.re * o.im + s.im * o.re)
     __rmul__ = __mul__
     def __truediv__(s, o):
@@ -492,9 +495,15 @@ class T(_np.ndarray):
         d = d[0] if len(d) == 1 and isinstance(d[0], (tuple, list)) else d
         return wrap(_np.transpose(_np.asarray(s), d))
     def transpose(s, *d):
-        if len(d) == 2 and all(isinstance(x, int) for x in d) and s.ndim > 2 or (len(d) == 2 and hasattr(s, '_torch')):
+        # two integer arguments: torch's x.transpose(d0, d1) swaps two axes.  (numpy's x.transpose(0, 1) on a 2-D array would be the
+        # identity permutation; nothing in the library writes that, and a wrong reading shows up in the numeric self-checks / ties)
+        if len(d) == 2 and all(isinstance(x, int) for x in d):
             return wrap(_np.swapaxes(_np.asarray(s), d[0], d[1]))
         return wrap(_np.transpose(_np.asarray(s), *d))
+    def masked_fill(s, mask, value):
+        # x.masked_fill(mask, v) = torch.where(mask, full_like(x, v), x); goes through the recipe's where hook if there is one
+        fill = _full(tuple(s.shape), _fill_value(value)) if not isinstance(value, _np.ndarray) else value
+        return (WHERE_HOOK[0] or _where)(mask, fill, s)
     def clone(s): return wrap(_np.asarray(s).copy())
     def copy(s, *a, **k): return wrap(_np.asarray(s).copy())
     def detach(s): return s
@@ -583,6 +592,12 @@ class T(_np.ndarray):
     def long(s): return _ew1(_trunc, s) if _INT_CAST_TRUNCATES[0] else s
     def int(s): return _ew1(_trunc, s) if _INT_CAST_TRUNCATES[0] else s
     def clamp(s, min=None, max=None, **k): return _clamp(s, min=min, max=max)
+    def __getattr__(s, name):
+        # x.sqrt(), x.exp(), x.pow(2), ... : tensor methods that torch also offers as functions of the same name
+        if name in _METHOD_FALLBACK_NAMES and name in _TORCH_FUNCS:
+            fn = _TORCH_FUNCS[name]
+            return lambda *a, **k: fn(s, *a, **k)
+        raise AttributeError("'T' object has no attribute %r" % name)
     def max(s, dim=None, keepdim=False, **k):
         if dim is None: return _minmax('max')(s)
         return _minmax_idx('max', s, dim, keepdim)
@@ -651,6 +666,9 @@ class _Count:
 
 def sym_len(x):
     return _Count(x.mask) if isinstance(x, MaskSel) else len(x)
+
+
+WHERE_HOOK = [None]          # a recipe that interprets torch.where specially (NaN guards) registers its function here as well
 
 
 def _fill_value(v):
@@ -937,9 +955,30 @@ class _Unflatten:
         return wrap(a.reshape(a.shape[:d] + s.sizes + a.shape[d + 1:]))
 
 
+_TORCH_FUNCS = {}
+
+
+class _TORCH_FUNCS_PROXY:
+    """writes through to the namespace dict and remembers the callables for T.__getattr__"""
+    def __init__(s, d): s.d = d
+    def __setitem__(s, k, v):
+        s.d[k] = v
+        if callable(v): _TORCH_FUNCS.setdefault(k, v)
+    def __getitem__(s, k): return s.d[k]
+    def __contains__(s, k): return k in s.d
+    def get(s, k, default=None): return s.d.get(k, default)
+    def setdefault(s, k, v):
+        if k not in s.d: s[k] = v
+        return s.d[k]
+    def update(s, o):
+        for k, v in dict(o).items(): s[k] = v
+_METHOD_FALLBACK_NAMES = {'cos', 'sin', 'tan', 'sqrt', 'log', 'floor', 'arccos', 'arcsin', 'arctan', 'acos', 'asin', 'atan', 'deg2rad', 'rad2deg', 'square', 'exp',
+                          'atan2', 'arctan2', 'pow', 'log2', 'log10', 'ceil', 'sign', 'rsqrt', 'reciprocal', 'neg', 'nan_to_num', 'where', 'maximum', 'minimum', 'matmul', 'norm'}
+
+
 def make_torch():
     t = _NS('torch')
-    d = t.__dict__
+    d = _TORCH_FUNCS_PROXY(t.__dict__)
     for f in ['cos', 'sin', 'tan', 'sqrt', 'log', 'floor', 'arccos', 'arcsin', 'arctan', 'deg2rad', 'rad2deg', 'square']:
         d[f] = _unary(f)
     d['acos'], d['asin'], d['atan'] = d['arccos'], d['arcsin'], d['arctan']
@@ -987,6 +1026,10 @@ def make_torch():
     la.__dict__['norm'] = lambda x, dim=None, axis=None, keepdim=False, **k: _ew1(lambda e: mk('sqrt', e), _sum(wrap(x) * wrap(x), axis=dim if dim is not None else axis, keepdim=keepdim))
     d['linalg'] = la
     d['norm'] = la.__dict__['norm']
+    def _vector_norm(x, ord=2, dim=None, keepdim=False, **k):
+        if ord not in (2, 2.0): raise TraceError('vector_norm with ord = %r is not supported' % (ord,))
+        return la.__dict__['norm'](x, dim=dim, keepdim=keepdim)
+    la.__dict__['vector_norm'] = _vector_norm
     d['linspace'] = _linspace
     d['arange'] = _arange
     d['meshgrid'] = _meshgrid
@@ -1183,6 +1226,17 @@ def load(relpath, names_, ns, cls=None, expose=None):
     missing = set(names_) - found
     if missing:
         raise TraceError('%s: function(s) %s not found' % (relpath, sorted(missing)))
+    # module-level helpers of the same file that the namespace does not define yet (a private helper a refactoring introduces
+    # must resolve when a traced function calls it); names the recipe or the shim already bound are left alone
+    for n in tree.body:
+        if isinstance(n, ast.FunctionDef) and n.name not in ns and n.name not in names_:
+            n.decorator_list = []
+            mod = ast.Module([n], [])
+            ast.fix_missing_locations(mod)
+            try:
+                exec(compile(mod, path, 'exec'), ns)
+            except Exception:
+                pass
     return ns
 
 
